@@ -26,6 +26,10 @@ SPEC = {
             "(all-true and mixed masks on a state split into several ranges) read back through verif_snapshot, "
             "plus 4- and 5-qubit terms (Kron, C, Composite, Loop) on n<=5 (n<=6 thorough) with sampled operand orders (all orders for n<=5 thorough), "
             "always including tuples whose endpoints look consecutive while the interior is out of order (e.g. 1 3 2 4); "
+            "plus a live-parameter stream: every parametrised gate that can hold a reference (RX RY RZ U1 U2 U3 CRX CRY CRZ CU1 CCRX CCRY CCRZ, C<U3>, C<C<U2>>, C<U1>, "
+            "Kron/Composite/Loop/nested composites containing them, random terms) built with sampled (all, thorough) direct/Rc<RefCell>/FFI-pointer patterns "
+            "while the cells hold decoys, every route called once, cells overwritten, then every route again on the same object "
+            "vs model and embed(matrix) at the NEW values; "
             "gates::bit_permutation for every tuple (n<=5 quick, n<=6 thorough); plus a malformed stream "
             "(row counts that are not a multiple of 2^k, wrong arity, repeated and out-of-range qubits, wrong state size; panics caught). "
             "(A) implementation vs Lean model route to 1e-12; (B) implementation vs embed(n, bits, matrix())*v to 1e-9, "
